@@ -141,6 +141,14 @@ def run(tier: str) -> int:
         if any(u - l0 < 2 * p for l0, u, p in zip(lo, up, pr)):
             scale = rng.choice([1.0, 0.25, 2.0**-12, 1024.0])   # range ~ precision: only exact scales (float comparison of equal decimals)
         events.append(call(2, lo, up, pr, scale, rng.choice(["list", "array"]), rtol=1e-9))
+    # (c') many parameters: the size of the space is a product far beyond 64 bits
+    for _ in range(25 if tier == "quick" else 300):
+        d = rng.randint(5, 14)
+        lo = [rng.choice([0, -1, 1, -500, 123]) for _ in range(d)]
+        pr = [rng.choice([1, 1, 2, 3]) for _ in range(d)]
+        steps = [rng.choice([10, 99, 100, 1000, 10**4]) for _ in range(d)]
+        up = [lo[j] + steps[j] * pr[j] for j in range(d)]
+        events.append(call(2, lo, up, pr, rng.choice([1.0, 0.1, 0.01, 0.25]), rng.choice(["list", "array"]), rtol=1e-9))
     # (d) the two ends of the scale, where the fixed 1e-7 end-point tolerance matters: tiny precisions and huge bounds
     for _ in range(40 if tier == "quick" else 400):
         steps = rng.choice([10, 1000, 10**5])
